@@ -217,6 +217,41 @@ pub fn traverse(world: &WorldRef, with_shx: bool, rstack: StackCfg, n_expected: 
             }
         }
     }
+    // Iterator::last() (everything is consumed, only the last record is returned), then two more items
+    let first = evs(world);
+    let r = guarded(|| rdr.iter_shapes().last().map(|x| x.map(|s| capture(&s)).map_err(|e| classify(&e))));
+    let end = evs(world);
+    match r {
+        Ok(res) => marks.push(RMark { call: "last".into(), first_ev: first, end_ev: end, res, panic: None }),
+        Err(p) => {
+            marks.push(RMark { call: "last".into(), first_ev: first, end_ev: end, res: None, panic: Some(p) });
+            return marks;
+        }
+    }
+    let r = guarded(|| {
+        let mut out = Vec::new();
+        let mut it = rdr.iter_shapes();
+        for k in 0..2usize {
+            let first = evs(world);
+            let x = it.next();
+            let _ = it.size_hint();
+            let end = evs(world);
+            let res = x.map(|x| x.map(|s| capture(&s)).map_err(|e| classify(&e)));
+            let stop = res.is_none();
+            out.push(RMark { call: format!("again#{}", k), first_ev: first, end_ev: end, res, panic: None });
+            if stop {
+                break;
+            }
+        }
+        out
+    });
+    match r {
+        Ok(v) => marks.extend(v),
+        Err(p) => {
+            marks.push(RMark { call: "again".into(), first_ev: 0, end_ev: 0, res: None, panic: Some(p) });
+            return marks;
+        }
+    }
     marks
 }
 
@@ -265,6 +300,27 @@ fn genuine_only(ctx: &mut Ctx, marks: &[RMark], f: &ValidFile, what: &str) {
                 Some(Err(_)) => consumed = k + 1,
                 None => {}
             }
+        } else if m.call == "last" {
+            // the last record (if the iteration could start before the end); afterwards a further
+            // iteration starts at the end or at the first record; after an error anywhere it could
+            if let Some(Ok(g)) = &m.res {
+                let n = f.expected.len();
+                if n == 0 || diff_read(&f.expected[n - 1], g, n - 1, &never).is_some() {
+                    ctx.fail("C13", "invented-shape", site, format!("{}: last() returned a shape that is not the last record", what));
+                }
+                starts = vec![0, f.expected.len()];
+            } else {
+                let mut ns = vec![0usize, f.expected.len()];
+                for s in &starts {
+                    for c in 0..=f.expected.len() {
+                        if !ns.contains(&(s + consumed + c)) {
+                            ns.push(s + consumed + c);
+                        }
+                    }
+                }
+                starts = ns;
+            }
+            consumed = 0;
         } else if let Some(i) = m.call.strip_prefix("read_nth(").and_then(|s| s.trim_end_matches(')').parse::<usize>().ok()) {
             match &m.res {
                 Some(Ok(g)) => {
@@ -375,6 +431,18 @@ pub fn run_case(scn: &RfScn, f: &ValidFile, ctx: &mut Ctx) {
             // the undisturbed traversal is the reference
             let w0 = World::with_data(Plan::default(), f.shp.clone(), f.shx.clone(), vec![]);
             let base = traverse(&w0, scn.with_shx, scn.rstack, n);
+            // on the complete file, read from a source that never fails, no iteration item and no
+            // random access to an existing entry is an error ("all records wholly contained in the
+            // retained bytes are returned"), whatever calls preceded it
+            for m in &base {
+                let iter_call = m.call.starts_with("next#") || m.call.starts_with("again#") || m.call == "last";
+                let nth_existing = scn.with_shx && m.call.strip_prefix("read_nth(").and_then(|s| s.trim_end_matches(')').parse::<usize>().ok()).map_or(false, |i| i < n);
+                let bad = (iter_call && matches!(m.res, Some(Err(_)))) || (nth_existing && !matches!(m.res, Some(Ok(_))));
+                if bad {
+                    ctx.fail("C13", "whole-records-returned", format!("undisturbed:{}", m.call.split(['#', '(']).next().unwrap_or("")), format!("complete file, undisturbed source, {}: {} returned {:?}", if scn.with_shx { "with index" } else { "without index" }, m.call, m.res.as_ref().map(item_short)));
+                    break;
+                }
+            }
             let world = World::with_data(plan.clone(), f.shp.clone(), f.shx.clone(), vec![]);
             let marks = traverse(&world, scn.with_shx, scn.rstack, n);
             let wb = world.borrow();
@@ -411,6 +479,11 @@ pub fn run_case(scn: &RfScn, f: &ValidFile, ctx: &mut Ctx) {
                 let want = RErr::Io(format!("{:?}", k));
                 let site = format!("{}:{}:{:?}", m.call.split(['#', '(']).next().unwrap_or(""), DEV_NAMES[e.dev as usize], e.kind);
                 ctx.stats.reach(&format!("fault-in:{}", site));
+                if m.call == "last" {
+                    // Iterator::last() hands back the final item only: an error item in the middle
+                    // (which is how the failure surfaced) is dropped by the adaptor, not by the library
+                    continue;
+                }
                 if m.res != Some(Err(want.clone())) {
                     ctx.fail("C13", "source-error-surfaces", site, format!("{}: {:?} on {} failed with {:?} during {}, which returned {:?}", what, e.kind, DEV_NAMES[e.dev as usize], k, m.call, m.res.as_ref().map(item_short)));
                 }
@@ -567,7 +640,7 @@ fn unit_with(w: WProg, r: &mut Rng, trunc_stride: usize, op_stride: u32, ctx: &m
                 // a short transfer followed by a failure: one-shot fault at k under 1-, 3- and 5-byte reads
                 if rs == StackCfg::Direct {
                     for c in [1u32, 3, 5] {
-                        let w1 = World::with_data(Plan { faults: vec![], dev: [DevCfg { chunks: vec![c], eintr: None, capacity: None, start: 0 }, DevCfg::default(), DevCfg::default()] }, fl.shp.clone(), fl.shx.clone(), vec![]);
+                        let w1 = World::with_data(Plan { faults: vec![], dev: [DevCfg { chunks: vec![c], eintr: None, capacity: None, start: 0, prefill: 0 }, DevCfg::default(), DevCfg::default()] }, fl.shp.clone(), fl.shx.clone(), vec![]);
                         let _ = traverse(&w1, true, rs, fl.expected.len());
                         let ops1 = w1.borrow().devices[SHP].ops;
                         let stride = (ops1 / if op_stride > 100 { 40 } else { 400 }).max(1);
